@@ -268,3 +268,21 @@ PROPS["C09"] = dict(
                guard={"quick": 900, "thorough": 7200})],
     min_class_fraction={"two_derivations_from_one_parent": 0.3, "history_as_one_program": 0.15, "op_combineNeval": 0.05, "op_append": 0.3},
 )
+
+
+PROPS["C20"] = dict(
+    pkg="c20",
+    rule=("lists of 0..12 records {x,y,w} (ints and floats) whose coordinates are drawn relative to the axis: on a bin edge, 1/1024 below or "
+          "above an edge, far outside (+-1e19, +-1e30, +-1e300, MaxFloat64, 9.3e18), zero, negative, anywhere on an 1/8 grid; weights "
+          "dyadic or the constant 1; axes: start on a 1/4 grid, size from {1/8,1/4,1/2,1,2,4,3,5,10}, count 0..64 (2d: 0..12), rarely "
+          "negative; one and two dimensions; slice-backed and lazy source lists; 0..4 consecutive parts for the additivity law. Oracle: "
+          "exact rational arithmetic (math/big): every element lands in exactly the bin given by the stated inequalities, each bin holds "
+          "the exact sum of its elements, the bins sum to the sum of all weights, descr/xd/yDescr have min/max equal to the bin's interval "
+          "with only one bound for the outer bins, collectBinning over the binnings of the parts equals the binning of the whole list "
+          "(values and descriptions), a negative count is rejected. Non-trivial: an element on an edge or far outside, or >=2 parts; "
+          "distinct = the whole input."),
+    assumptions=["all generated coordinates, weights and axis parameters are exactly representable; sums are exact"],
+    jobs=[dict(name="c20", run="^TestPropC20$", kind="rapid", shards=16, checks={"quick": 100000, "thorough": 3000000},
+               guard={"quick": 900, "thorough": 7200})],
+    min_class_fraction={"x_on_edge": 0.3, "x_far_outside": 0.1, "two_dimensional": 0.3, "additivity_over_2plus_parts": 0.2},
+)
